@@ -58,6 +58,18 @@ class Made:
         return '%s(bb%d,%s)' % (self.fn.path, self.bb, self.kind)
 
 
+def sites_in(prog, f, ty, helpers):
+    """places in f (a constructor helper or not) where a `ty` starts to exist in f's frame: literals, calls of
+    constructor helpers, helpers handed over as fn items"""
+    out = [Made(f, bi, 'stmt', stmt=s) for bi, s in literal_sites(f, ty)]
+    for c in f.calls:
+        if not c.indirect and c.name in helpers:
+            out.append(Made(f, c.bb, 'call', call=c))
+        elif helpers and any(g.path in helpers for g in prog.fn_item_args(c)):
+            out.append(Made(f, c.bb, 'fnitem', call=c))
+    return out
+
+
 def construction_sites(prog, sl, ty):
     """every place in the workspace where a `ty` is made, constructor helpers being transparent; a helper handed around
     as a fn item counts as a site where it is handed over (its callers are unknown)"""
@@ -66,14 +78,36 @@ def construction_sites(prog, sl, ty):
     for f in prog.fns.values():
         if f.derived or f.path in helpers:
             continue
-        for bi, s in literal_sites(f, ty):
-            out.append(Made(f, bi, 'stmt', stmt=s))
-        for c in f.calls:
-            if not c.indirect and c.name in helpers:
-                out.append(Made(f, c.bb, 'call', call=c))
-            elif helpers and any(g.path in helpers for g in prog.fn_item_args(c)):
-                out.append(Made(f, c.bb, 'fnitem', call=c))
+        out.extend(sites_in(prog, f, ty, helpers))
     return out, helpers
+
+
+def guard_frames(prog, ty, helpers, entry, runs_of, max_depth=6):
+    """The frames in which a guard of type `ty` lives while commands are issued, starting at `entry` and descending into
+    the constructor helper that makes the guard when that helper issues commands itself (acquire phase split off into a
+    private function that hands the guard back by value).
+    runs_of(fn) -> effects of fn (in fn's terms) that must not happen before the guard exists.
+    Returns (ok, why, frames): frames = [(fn, Made, runs issued in fn's own frame while the guard is owned there)];
+    ok is False when in some frame a command can be issued before / not dominated by the guard's creation."""
+    frames = []
+    fn = entry
+    for _ in range(max_depth):
+        here = [m for m in sites_in(prog, fn, ty, helpers) if m.kind in ('stmt', 'call')]
+        if len(here) != 1:
+            return False, '%d construction sites in %s' % (len(here), fn.path), frames
+        m = here[0]
+        runs = runs_of(fn)
+        inner = [e for e in runs if m.kind == 'call' and top_call(e) is m.call]   # issued by the helper itself
+        outer = [e for e in runs if not (m.kind == 'call' and top_call(e) is m.call)]
+        # a statement precedes the terminator of its block; a call's result exists from the next block on
+        late = [e for e in outer if not (fn.dominates(m.bb, top_call(e).bb) and (m.kind == 'stmt' or m.bb != top_call(e).bb))]
+        if late:
+            return False, 'command at %s is not preceded by the guard made in %s' % (top_call(late[0]).where(), fn.path), frames
+        frames.append((fn, m, outer))
+        if not inner:
+            return True, '', frames
+        fn = helpers[m.call.name]
+    return False, 'constructor helpers nested too deep', frames
 
 
 def param_fields(v, fn_path, idx):
@@ -88,3 +122,38 @@ def param_fields(v, fn_path, idx):
 def top_call(e):
     """the call site, in the entry function of the expansion, through which effect e is reached"""
     return e.chain[0].call if e.chain else e.call
+
+
+OWNING_WRAPPERS = ('std::option::Option', 'std::boxed::Box')
+
+
+def owns_by_value(ty, inner):
+    """type `ty` is `inner` or an Option / Box (nested) of it: dropping a `ty` drops the `inner` it holds.
+    References, Rc/Arc (shared), ManuallyDrop and paths derived from the value do not qualify."""
+    ty = ty.strip()
+    while True:
+        if ty == inner:
+            return True
+        for wr in OWNING_WRAPPERS:
+            if ty.startswith(wr + '<') and ty.endswith('>'):
+                ty = ty[len(wr) + 1:-1].strip()
+                break
+        else:
+            return False
+
+
+def owning_fields(adt, inner):
+    """{(variant name, field name)} of the fields of adt that own an `inner` by value"""
+    return {(v['name'], fl['name']) for v in (adt or {}).get('variants', ()) for fl in v['fields'] if owns_by_value(fl['ty'], inner)}
+
+
+def held(v):
+    """the value held by `Some(x)` / `Box::new(x)` wrappers around it"""
+    v = strip(v)
+    while True:
+        if v[0] == 'agg' and v[1] == 'std::option::Option' and v[2] == 'Some':
+            v = strip(dict(v[3]).get('0', ('unknown',)))
+        elif v[0] == 'call' and v[1] in ('std::boxed::Box::<T>::new', 'std::boxed::Box::new') and len(v[2]) == 1:
+            v = strip(v[2][0])
+        else:
+            return v
